@@ -45,6 +45,7 @@ def namespace(m):
 
 def main():
     c = json.load(sys.stdin)
+    deferred_spec = None
     sys.dont_write_bytecode = bool(c.get("dont_write"))
     sys.path.insert(0, c["root"])
     res = {"events": [], "errors": [], "ns": {}, "post_events": 0}
@@ -126,6 +127,9 @@ def main():
                 for t in tracers:
                     st.enter_context(t.tracing_enabled())
                 imp(c["imports"], "ctx")
+                if c.get("deferred"):
+                    # the spec (with its loader) is obtained inside the context; the module is executed later
+                    deferred_spec = importlib.util.find_spec(c["deferred"]["module"])
                 for call in c.get("calls", []):
                     try:
                         mod, fn = call.rsplit(".", 1)
@@ -153,6 +157,24 @@ def main():
         except BaseException as e:
             res["errors"].append(["post_call", call, type(e).__name__, str(e)[:200], ""])
     res["post_events"] = len(log) - n0
+    if c.get("deferred") and tracers:
+        n1 = len(log)
+        name = c["deferred"]["module"]
+
+        def load_deferred():
+            try:
+                m = importlib.util.module_from_spec(deferred_spec)
+                sys.modules[name] = m
+                deferred_spec.loader.exec_module(m)
+                res["ns"]["deferred:" + name] = namespace(m)
+            except BaseException as e:
+                res["errors"].append(["deferred", name, type(e).__name__, str(e)[:200], traceback.format_exc()[-600:]])
+        if c["deferred"]["load"] == "first":
+            with tracers[0].tracing_enabled():          # a second context, of the first tracer only
+                load_deferred()
+        else:
+            load_deferred()                             # after every context
+        res["deferred_events"] = [e[:4] for e in log[n1:]]
     res["finder_left"] = any(type(f).__name__ == "TraceFinder" for f in sys.meta_path)
     res["cache_fn_patched"] = importlib.util.cache_from_source.__code__.co_name != "cache_from_source"
     cache = []
